@@ -51,6 +51,9 @@ type c12VB struct {
 	Rollup   uint32
 	ExitRoot common.Hash
 	C2       int // for our rollup: L2 deposits covered
+	// Orphan: no L1 info update followed this verification (event streams the rollup manager of today does not emit;
+	// the rollup exit root it produced is in no leaf unless a later verification repeats it)
+	Orphan bool
 }
 
 type c12Inj struct {
@@ -119,6 +122,12 @@ func C12Config(prop string, r *Rand, tier string) map[string]int64 {
 	if r.Bool(15) {
 		// separate fault-free batch
 		c["w_fsync"], c["w_qfault"] = 0, 0
+	}
+	// verifications that no L1 info update follows (drawn last: other knobs keep their values): the rollup exit root
+	// they produce reaches no leaf, so the index lookup has nothing to name for the bridges only they cover
+	c["orphan_vb"] = 0
+	if r.Bool(30) {
+		c["orphan_vb"] = 1
 	}
 	return c
 }
@@ -371,8 +380,13 @@ func (w *c12World) mineL1(seed uint64, gap int) {
 			pos++
 			if cur, ok := rollup.Leaves[w.netID-1]; er != (common.Hash{}) && (!ok || cur != er) {
 				rollup.Set(w.netID-1, er)
-				w.vbs = append(w.vbs, c12VB{Block: num, Rollup: w.netID, ExitRoot: er, C2: c2})
-				addInfo(w.lastC1())
+				orphan := w.cfg["orphan_vb"] == 1 && forcedC2 < 0 && r.Bool(30)
+				w.vbs = append(w.vbs, c12VB{Block: num, Rollup: w.netID, ExitRoot: er, C2: c2, Orphan: orphan})
+				if orphan {
+					w.rec.Stats.Inc("verifications_of_our_rollup_without_an_l1_info_update")
+				} else {
+					addInfo(w.lastC1())
+				}
 			}
 		default: // verify batches of another rollup
 			rid := uint32(1 + r.Intn(5))
@@ -385,7 +399,11 @@ func (w *c12World) mineL1(seed uint64, gap int) {
 			pos++
 			rollup.Set(rid-1, er)
 			w.vbs = append(w.vbs, c12VB{Block: num, Rollup: rid, ExitRoot: er})
-			addInfo(w.lastC1())
+			if w.cfg["orphan_vb"] == 1 && r.Bool(20) {
+				w.rec.Stats.Inc("verifications_of_other_rollups_without_an_l1_info_update")
+			} else {
+				addInfo(w.lastC1())
+			}
 		}
 	}
 	w.chain[c12L1B] = append(w.chain[c12L1B], bb)
@@ -683,6 +701,12 @@ func (j *c12Judge) indexLookup(net uint32, d uint32) (uint32, bool) {
 			for _, v := range w.knownVBs() {
 				if v.Rollup == w.netID && v.C2 > kd {
 					excuse = true
+				}
+				if v.Rollup == w.netID && v.Orphan && int(d) < v.C2 {
+					// the rollup exit root of a verification that covers the bridge is in no leaf: the lookup, which
+					// goes through the first covering verification's root, may have nothing to name
+					excuse = true
+					w.rec.Stats.Inc("index_lookup_refused_root_of_the_verification_in_no_leaf")
 				}
 			}
 		}
